@@ -18,6 +18,7 @@ from fractions import Fraction
 import common
 from common import enc, dec, err_kind
 from props import c04_hist as H
+from props import c04_cx as X
 
 ID = "C04"
 RULE = ("exhaustive small universe (coefficients in {-1,0,1,2}, lb<=3, la<=3) plus random shapes of order 0..8 "
@@ -33,6 +34,15 @@ RULE = ("exhaustive small universe (coefficients in {-1,0,1,2}, lb<=3, la<=3) pl
         "several times, equal filters of different coefficient types in both orders, several live streams consumed "
         "interleaved in chunks, non-causal filters inside a history; every history runs in a freshly forked process); "
         "+ cascades (one filter object applied 2-4 times to its own lazy output, a memory per stage: re-entrant use); "
+        "+ coefficient kinds / constructor shapes / call shapes over Q(i) (c04_cx.py, driver entry gcall): every spelling of "
+        "the special-cased values (1, -1, 0 as int, bool, float, Fraction, complex 1+0j / -1+0j / 0j) and their neighbours "
+        "(1j, -1j, unit-modulus 0.6+0.8j, 2j, 10**30) in every position (numerator delay 0..2, denominator delay 1..2, gain), "
+        "random Gaussian-integer / unit-modulus / bool / huge-int / dyadic-complex / Fraction coefficient vectors, numerator and "
+        "denominator given as number, None / omitted, list, dict, OrderedDict, Poly, keywords, z-arithmetic, filter cast, cast "
+        "with a scalar divisor, polynomials assigned to an existing object (a[0] missing / 0 / 0.0 / Fraction(0) / 0j / False: the "
+        "ZeroDivisionError branch), memory and zero omitted / keyword / positional, memory as thub / callable returning a Stream / "
+        "callable object / partial / endless Stream, zero spelled int / bool / float / Fraction / complex, Gaussian-integer / "
+        "dyadic-complex / Fraction / int samples, inputs incl. thub and endless iterators consumed with take(n); "
         "a case is non-trivial when the impl yields at least one sample or raises; distinct = distinct JSON case")
 TRUSTED = [
     "hand-written Lean model ALV/Model/C04.lean of LinearFilter.__init__/__call__ (modelled, not verified: Poly "
@@ -53,12 +63,23 @@ TRUSTED = [
     "history isolation (harness/props/c04_hist.py:_zygote_start): every history runs in a child forked from a zygote with "
     "freshly imported audiolazy, so a failing history fails on pristine library state; a disagreeing single call is run "
     "again in such a child and labelled state-dependent when it agrees there",
+    "coefficient kinds (harness/props/c04_cx.py): complex numbers are sent to Lean at their exact binary value as Gaussian "
+    "rationals; the driver runs the polymorphic model / spec over the executable field Q(i) (ALV.C12.GRat; Field instance "
+    "proved in Lemmas/C12Gauss.lean, the instance executed is covered by gauss_filterCall_eq_specCall); outputs the real code "
+    "computed in int / Fraction types are compared exactly, Gaussian-integer data without a division below 2**52 exactly, "
+    "everything else within a running rounding-error bound computed in exact arithmetic (1-norms, u = 2^-52); the T3 parser "
+    "folds python's printed complex constants ('(1+2j)', '(-0-1j)', '--1j') exactly; modelled, not verified: Poly(number) = "
+    "{0: number}, Poly(None) = {}, ZFilter(filt, c) multiplies the numerator by 1/c (1/0 raises at construction); an endless "
+    "input is observed through a counting iterator (pulled items = outputs taken: one_output_per_input + prefix_causal)",
     "long cases: the Lean driver does not execute the generated loop statement by statement (O(order^2) per sample) "
     "but answers with specCall, equal to the model by theorem filterCall_eq_specCall; the generated source of every "
     "long case is still compared structurally (T3)",
 ]
 ASSUMPTIONS = [
     "constant (non-Stream) coefficients with integer powers; time-varying coefficients are C06",
+    "coefficients, samples, memory items and zero values are numbers of a field: int (any size), bool, Fraction, float, "
+    "complex; a tuple given where a list is expected, Decimal and numpy scalars are outside (Poly treats a tuple as ONE "
+    "coefficient)",
     "numbers are modelled as elements of a field (exact rationals in the driver); where the impl itself injects "
     "binary floats (Fraction coefficients formatted as 'p/q' into the exec'd source, int/int true division, float "
     "coefficients, a non-integer zero value of the all-zero filter) outputs are compared within a computed "
@@ -71,11 +92,15 @@ ASSUMPTIONS = [
 ]
 MANIFEST = {
     "technique": "Lean 4 refinement proof (generated loop IR = bounded shifting state machine = difference "
-                 "equation over unbounded histories = the indexed sentence of the property, any field, all "
+                 "equation over unbounded histories = the indexed sentence of the property, any field incl. the "
+                 "executable Gaussian rationals Q(i) for complex coefficients, all "
                  "lengths; constructor arguments to outputs end to end; histories of lazily consumed streams over a "
                  "heap of caller objects) + translator tie T3 (captured source vs Lean compile, structural) + exact "
                  "I/O differential (single calls, long orders / inputs, histories in isolated processes)",
-    "note": "35 theorems, no pending statement; D4 (Fraction gain formatted as '(expr) / p/q') fixed in /repo "
+    "note": "47 theorems, no pending statement; round 3: special cases of the string building proved neutral for every field "
+            "element (special_cases_neutral, term_value, unit_test_sound_iff), executable Q(i) instance tied to the real "
+            "code with complex coefficients (gcall), call / constructor shapes with defaults (filterCallD_eq_specCallD), "
+            "a[0] == 0 branch (callRaw_eq_specCallRaw); D4 (Fraction gain formatted as '(expr) / p/q') fixed in /repo "
             "(2433df9), proposed_fixes/D4-fraction-gain.diff",
 }
 
@@ -160,19 +185,24 @@ def _var(node):
 
 
 def _fold(node):
-    """constant expression -> exact Fraction (literals, unary +/-, '/' and '*' of constants)"""
-    if isinstance(node, ast.Constant) and isinstance(node.value, (int, float)) and not isinstance(node.value, bool):
-        if isinstance(node.value, float) and (node.value != node.value or node.value in (float("inf"), float("-inf"))):
+    """constant expression -> exact Gaussian rational X.G (literals: int of any size, float, imaginary, bool;
+    unary +/-; '/' of constants ('1/3'); '+' / '-' of constants as python prints a complex: '(1+2j)', '(-0-1j)')"""
+    if isinstance(node, ast.Constant) and isinstance(node.value, (bool, int, float, complex)):
+        g = X.g_of(int(node.value) if isinstance(node.value, bool) else node.value)
+        if g is None:
             raise Unparsed("non-finite literal")
-        return Fraction(node.value)
+        return g
     if isinstance(node, ast.UnaryOp) and isinstance(node.op, (ast.USub, ast.UAdd)):
         v = _fold(node.operand)
         return -v if isinstance(node.op, ast.USub) else v
     if isinstance(node, ast.BinOp) and isinstance(node.op, ast.Div):
         d = _fold(node.right)
-        if d == 0:
+        if d.is_zero():
             raise Unparsed("constant division by zero")
         return _fold(node.left) / d
+    if isinstance(node, ast.BinOp) and isinstance(node.op, (ast.Add, ast.Sub)):
+        l, r = _fold(node.left), _fold(node.right)
+        return l + r if isinstance(node.op, ast.Add) else l - r
     raise Unparsed("not a constant: " + ast.dump(node)[:80])
 
 
@@ -190,7 +220,7 @@ def _atom(node):
     if isinstance(node, ast.UnaryOp) and isinstance(node.op, ast.USub) and isinstance(node.operand, ast.Name):
         return ["neg"] + _var(node.operand)
     if isinstance(node, ast.BinOp) and isinstance(node.op, ast.Mult) and isinstance(node.right, ast.Name):
-        return ["mul", enc(_fold(node.left))] + _var(node.right)
+        return ["mul", X.genc(_fold(node.left))] + _var(node.right)
     raise Unparsed("not a summand: " + ast.dump(node)[:100])
 
 
@@ -209,7 +239,7 @@ def _expr(src, node):
         chain = []
         body = node
         while isinstance(body, ast.BinOp) and isinstance(body.op, ast.Div) and _is_const(body.right):
-            chain.append(enc(_fold(body.right)))
+            chain.append(X.genc(_fold(body.right)))
             body = body.left
         chain.reverse()
         if not seg.startswith("("):
@@ -257,7 +287,7 @@ def parse_source(src):
         if loop.target.id != "d0":
             if nm or nd or len(st) != 1 or not isinstance(st[0], ast.Expr) or not isinstance(st[0].value, ast.Yield):
                 raise Unparsed("constant loop shape")
-            return {"kind": "const", "zero": enc(_fold(st[0].value.value))}
+            return {"kind": "const", "zero": X.genc(_fold(st[0].value.value))}
         if len(st) < 2 or not isinstance(st[0], ast.Assign) or len(st[0].targets) != 1 or _var(st[0].targets[0]) != ["m", 0]:
             raise Unparsed("first statement is not m0 = …")
         if not (isinstance(st[1], ast.Expr) and isinstance(st[1].value, ast.Yield)
@@ -382,6 +412,8 @@ def _xs_obj(xs, how):
 def impl(c):
     if c["entry"] == "hist":
         return H.impl(c)
+    if c["entry"] == "gcall":
+        return X.impl(c)
     if c["entry"] == "cascade":
         return impl_cascade(c)
     return impl_call(c)
@@ -482,6 +514,8 @@ def _mem_req(m):
 def request(c):
     if c["entry"] == "hist":
         return H.request(c)
+    if c["entry"] == "gcall":
+        return X.request(c)
     if c["entry"] == "cascade":
         return {"entry": "cascade", "num": [[k, exact(v)] for k, v in c["num"]], "den": [[k, exact(v)] for k, v in c["den"]],
                 "zero": exact(c["zero"]), "xs": [exact(x) for x in c["xs"]], "mems": [_mem_req(m) for m in c["mems"]]}
@@ -627,6 +661,8 @@ def _compare_cascade(c, io, drv):
 def compare(c, io, drv):
     if c["entry"] == "hist":
         return H.compare(c, io, drv)
+    if c["entry"] == "gcall":
+        return X.compare(c, io, drv)
     if c["entry"] == "cascade":
         return _compare_cascade(c, io, drv)
     out = _compare_call(c, io, drv)
@@ -708,6 +744,8 @@ def _short_memory(c, model):
 def nontrivial(c, io):
     if c["entry"] == "hist":
         return H.nontrivial(c, io)
+    if c["entry"] == "gcall":
+        return X.nontrivial(c, io)
     if c["entry"] == "cascade":
         return "err" in io or (bool(io.get("out")) and len(c["mems"]) >= 2)
     return "err" in io or bool(io.get("out"))
@@ -739,6 +777,8 @@ def _d4_prediction(c, model):
 def classify(c, io, drv):
     if c["entry"] == "hist":
         return H.classify(c, io, drv)
+    if c["entry"] == "gcall":
+        return X.classify(c, io, drv)
     if c["entry"] == "cascade":
         ps = _compare_cascade(c, io, drv)
         if "err" in io:
@@ -1077,6 +1117,8 @@ def generate(rng, tier, scale=1):
     # long runs / large orders, then histories (own random streams: the batches above keep their draws)
     cases.extend(_gen_long(random.Random(rng.random()), tier, scale))
     cases.extend(H.generate(random.Random(rng.random()), tier, scale))
+    # coefficient kinds (complex / bool / huge / Fraction / float spellings), constructor and call shapes over Q(i)
+    cases.extend(X.generate(random.Random(rng.random()), tier, scale))
     return cases
 
 
@@ -1087,6 +1129,8 @@ def tally(eng, c, io):
     eng.count("entry", c["entry"] + ("/long" if c.get("long") else ""))
     if c["entry"] == "hist":
         return H.tally(eng, c, io)
+    if c["entry"] == "gcall":
+        return X.tally(eng, c, io)
     if c["entry"] == "cascade":
         eng.count("cascade_stages", len(c["mems"]))
         eng.count("cascade_memories", "+".join(sorted({"none" if m is None else m.get("as", m["kind"]) for m in c["mems"]})) or "-")
@@ -1147,6 +1191,10 @@ def _simplify_num(j):
 def shrink(c):
     if c["entry"] == "hist":
         for d in H.shrink(c):
+            yield d
+        return
+    if c["entry"] == "gcall":
+        for d in X.shrink(c):
             yield d
         return
     if c["entry"] == "cascade":
@@ -1314,6 +1362,10 @@ def _shrink_rest(c):
 
 
 def neighbours(c):
+    if c["entry"] == "gcall":
+        for d in X.neighbours(c):
+            yield d
+        return
     if c["entry"] in ("hist", "cascade") or c.get("long"):
         return
     for side in ("num", "den"):
@@ -1357,7 +1409,37 @@ _SELFTEST_EDITS = [
 ]
 
 
+_SELFTEST_CX_SRC = """def gen(seq, memory, zero):
+  m1 , = memory
+  d1 = d2 = d3 = zero
+  for d0 in seq:
+    m0 = (1j * d0 + (-0-1j) * d1 + (0.5+0.25j) * d2 + 1000000000000000000000000000001 * d3 + --1j * m1) / ((1+2j))
+    yield m0
+    m1 = m0
+    d3 = d2
+    d2 = d1
+    d1 = d0"""
+_SELFTEST_CX_IR = {"kind": "loop", "nm": 1, "nd": 3,
+                   "sum": [["mul", [0, 1], "d", 0], ["mul", [0, -1], "d", 1], ["mul", ["1/2", "1/4"], "d", 2],
+                           ["mul", 10 ** 30 + 1, "d", 3], ["mul", [0, 1], "m", 1]],
+                   "gain": ["div", [1, 2]],
+                   "shifts": [["m", 1, "m", 0], ["d", 3, "d", 2], ["d", 2, "d", 1], ["d", 1, "d", 0]]}
+_SELFTEST_CX_EDITS = [
+    ("1j * d0", "-d0"), ("1j * d0", "d0"), ("1j * d0", "1 * d0"), ("1j * d0", "-1j * d0"), ("(-0-1j)", "(-0+1j)"), ("(-0-1j)", "-1"),
+    ("--1j", "-1j"), ("((1+2j))", "((1-2j))"), ("((1+2j))", "(1)"), ("0.25j", "0.5j"), ("0000001 * d3", "0000000 * d3"),
+    ("1000000000000000000000000000001", "1e30"),
+]
+
+
 def extra_checks(eng):
+    ok = parse_source(_SELFTEST_CX_SRC) == _SELFTEST_CX_IR
+    yield ("T3-parser-reference-source-complex", ok, "parse_source gave %r" % (parse_source(_SELFTEST_CX_SRC),))
+    blind = []
+    for old, new in _SELFTEST_CX_EDITS:
+        assert old in _SELFTEST_CX_SRC
+        if parse_source(_SELFTEST_CX_SRC.replace(old, new, 1)) == _SELFTEST_CX_IR:
+            blind.append((old, new))
+    yield ("T3-parser-sees-seeded-edits-complex(%d)" % len(_SELFTEST_CX_EDITS), not blind, "edits not seen: %r" % (blind,))
     ok = parse_source(_SELFTEST_SRC) == _SELFTEST_IR
     yield ("T3-parser-reference-source", ok, "parse_source gave %r" % (parse_source(_SELFTEST_SRC),))
     blind = []
